@@ -2,6 +2,7 @@ import OutlineModel.Model.IPInfo
 import OutlineModel.Model.Metrics
 import OutlineModel.Proofs.IP
 import OutlineModel.Gen.MetricTable
+import OutlineModel.Gen.Decisions
 /-
 C20 — Metrics never expose client addresses and label locations by class.
 
@@ -90,5 +91,22 @@ theorem labels_never_from_client_addr :
 /-- **values_from_counts_only**: metric VALUES are built only from byte counts, durations and unit
     increments (provenance classes of every Add/Observe/Set argument). -/
 theorem values_from_counts_only : ∀ s ∈ Gen.MetricTable.valueSites, s.2 ∈ Gen.MetricTable.allowedValueClasses := by decide
+
+
+/-- **decision_order_as_modelled**: the label constants, the ORDER of the guards of GetIPInfoFromAddr /
+    GetIPInfoFromIP (nil database, nil IP, not global unicast, database error, empty answer) and the
+    position of the single database call are, in the source as it is now, the ones `Model/IPInfo`
+    implements (regenerated decision table). -/
+theorem decision_order_as_modelled :
+    Gen.Decisions.ipInfoLabels = [("errParseAddr", "XA"), ("localLocation", "XL"), ("errDbLookupError", "XD"), ("unknownLocation", "ZZ")] ∧
+    Gen.Decisions.ipInfoFromIPSteps = [("ip2info==nil", ""), ("ip==nil", "errParseAddr"), ("!ip.IsGlobalUnicast()", "localLocation"),
+      ("err!=nil", "errDbLookupError"), ("info.CountryCode==\"\"", "unknownLocation")] ∧
+    Gen.Decisions.ipInfoFromAddrSteps = [("addr==nil", "errParseAddr"), ("err!=nil", "errParseAddr"), ("i>=0", ""), ("ip==nil", "errParseAddr")] ∧
+    Gen.Decisions.ipInfoLookupAfterClassGuards = true := by decide
+
+/-- **probe_label_values_fixed**: the `error` label of the probe histogram takes one of three literals;
+    no return of drainErrToString is computed from the error (which would carry both endpoints). -/
+theorem probe_label_values_fixed :
+    Gen.Decisions.drainResults = ["eof", "other", "timeout"] ∧ Gen.Decisions.drainReturnsNonLiteral = false := by decide
 
 end OutlineModel.Props.C20
